@@ -412,6 +412,20 @@ tok%(u)s(n: SI): Integer == {
     return d, [], "tok%s(%d)" % (u, 1)
 
 
+def hibyte_program(vals):
+    """A program whose identifiers carry the given escaped bytes above 127, as function names
+    and as local variables: every emitter maps the characters of a name through a table of its own."""
+    vals = sorted(set(vals))
+    defs = []
+    uses = []
+    for i, v in enumerate(vals):
+        nm = "hb_%s_%sq%d" % (chr(v), chr(vals[(i * 7 + 3) % len(vals)]), i)
+        defs.append("%s(n: SI): SI == { l_%sv: SI := n + %d; l_%sv rem 1009 }" % (nm, chr(v), i + 1, chr(v)))
+        uses.append("%s(%d)" % (nm, i + 5))
+    return '#include "axllib"\n\nSI ==> SingleInteger;\nimport from SI;\n\n' + "\n".join(defs) + \
+        "\n\nprint << (" + " + ".join(uses) + ") << newline;\n"
+
+
 def b_deeprec(u, rng, n):
     """Non-tail recursion: live temporaries in thousands of stack frames while collections run."""
     d = '''
